@@ -273,7 +273,7 @@ def correspond(rng, tier, driver):
                 "line); random section line offsets registered for the main file; main file named answer.py / student.py "
                 "/ hw/part_b.py / main.py; verify() called bare or as verify(code, filename); real = pedal.source.verify on MAIN_REPORT, model = Pedal.Source.verify fed "
                 "with ast.parse's own outcome; non-trivial = text rejected by the parser, blank, or offset > 0")
-    n = 600 if tier == "quick" else 12000
+    n = 5000 if tier == "quick" else 20000
     cases = make_cases(rng, n)
     # a few load-error cases (correspondence only)
     extra = [{"code": "x = 1", "offset": 0, "load_error": True, "filename": FILENAME, "explicit": False},
@@ -369,7 +369,7 @@ def search(rng, tier, broken, corr):
         consider(*row)
         if len(failures) >= 5:
             break
-    n = 400 if tier == "quick" else 20000
+    n = 4000 if tier == "quick" else 30000
     if broken:
         n *= 4
     if not getattr(corr, "rows", None):
